@@ -407,6 +407,176 @@ class Device:
         return dc["table"][dc["used"]] == ecc_key_hash(dc["rot_pub"])
 
 
+# ------------------------------------------------------------------ EdgeLock enclave, container version 2 (AHAB certificate + signed message)
+# No golden artefact of this variant exists in the repository's tests; the layout follows the format tables in the documentation
+# strings of spsdk/image/ahab (certificate, signature block v2, SRK table array, signed message) - listed as an assumption.
+def _hdr_vlt(b):
+    """AHAB header, version first: version, length LE16, tag."""
+    return b[0], struct.unpack_from("<H", b, 1)[0], b[3]
+
+
+def walk_cert2(data):
+    """AHAB certificate version 2 used as debug credential: header, signature offset, permissions, permission data
+    (socc, socu, beacon), fuse version, uuid, SRK record + SRK data of the debug key, signature container."""
+    w = Walk(data)
+    h = w.take("hdr", 4)
+    so = w.take("sig_offset", 2)
+    perm = w.take("permissions", 2)
+    socc = w.take("socc", 4)
+    socu = w.take("cc_socu", 4)
+    beacon = w.take("cc_beacon", 4)
+    fv = w.take("fuse_version", 4)
+    uuid = w.take("uuid", 16)
+    rec_at = w.o
+    rec = w.take("srk_record", 12)
+    if w.err:
+        return {"err": w.err, "fields": w.fields}
+    version, length, tag = _hdr_vlt(h)
+    if (version, tag) != (2, 0xAF) or length > len(data):
+        return {"err": f"certificate header version {version} tag {tag:#x} length {length}", "fields": w.fields}
+    rtag, rlen, salg, halg, ksz, _r, rflags, l1, l2 = struct.unpack("<BHBBBBBHH", rec)
+    kind, size = SRK_KEYSIZE.get(ksz, (None, 0))
+    if rtag != 0xE1 or rlen != 76 or kind != "ecc" or salg != 0x27 or halg not in SRK_HASH or (l1, l2) != (size, size):
+        return {"err": f"certificate SRK record: tag {rtag:#x} length {rlen} alg {salg:#x}/{halg} key {ksz} params {l1}+{l2}", "fields": w.fields}
+    dh = w.take("srk_data_hash", 64)
+    sd_at = w.o
+    sdh = w.take("srk_data_header", 8)
+    key = w.take("dck", 2 * size)
+    sig_at = w.o
+    sh = w.take("sig_header", 8)
+    sig = w.take("signature", 2 * size)
+    if w.err:
+        return {"err": w.err, "fields": w.fields}
+    sv, sl, st = _hdr_vlt(sdh)
+    gv, gl, gt = _hdr_vlt(sh)
+    if (sv, sl, st) != (0, 8 + 2 * size, 0x5D) or (gv, gl, gt) != (0, 8 + 2 * size, 0xD8) or any(sh[4:]):
+        return {"err": f"certificate SRK data / signature container headers {sdh.hex()} {sh.hex()}", "fields": w.fields}
+    if length != w.o or struct.unpack("<H", so)[0] != sig_at:
+        return {"err": f"certificate length {length} / signature offset {struct.unpack('<H', so)[0]}: walked {w.o} / {sig_at}", "fields": w.fields}
+    hn = SRK_HASH[halg]
+    digest = hashlib.new(hn, data[sd_at:sig_at]).digest()
+    return {"fields": w.fields, "end": w.o, "sig_at": sig_at, "sig": sig, "signed": data[:sig_at], "socc": le32(socc, 0), "cc_socu": le32(socu, 0),
+            "cc_beacon": le32(beacon, 0), "uuid": uuid, "perm": perm[1], "perm_ok": perm[1] == 0x02 and perm[0] == 0xFD, "fuse_version": fv[0],
+            "reserved_ok": not any(fv[1:]), "size": size, "hash": hn, "dck_pub": pub_from_blob("ecc", key, size), "dck_blob": key,
+            "srk_hash_ok": dh == digest + bytes(64 - len(digest)), "srk_id": sdh[4], "rec_flags": rflags}
+
+
+def srk2_record(pub, flags=0, srk_id=0):
+    """SRK record (v2) and SRK data container of a key."""
+    hn = ECC_HASH[pub.size]
+    sd = struct.pack("<BHBB3x", 0, 8 + 2 * pub.size, 0x5D, srk_id) + pub.blob()
+    dg = hashlib.new(hn, sd).digest()
+    rec = struct.pack("<BHBBBBBHH", 0xE1, 76, 0x27, {"sha256": 0, "sha384": 1, "sha512": 2}[hn], {32: 1, 48: 2, 66: 3}[pub.size], 0, flags, pub.size, pub.size)
+    return rec + dg + bytes(64 - len(dg)), sd
+
+
+def ref_srk_table2(pubs):
+    recs = b"".join(srk2_record(p, 0, i)[0] for i, p in enumerate(pubs))
+    return struct.pack("<BHB", 0xD7, 4 + len(recs), 0x43) + recs
+
+
+def walk_msg2(data):
+    """Signed message (container version 2) carrying the debug-authentication request: container header, message descriptor,
+    message header, payload (challenge vector, beacon), signature block: header, SRK table array (table + data of the used key),
+    container signature, certificate."""
+    w = Walk(data)
+    ch = w.take("container_header", 16)
+    w.take("msg_descriptor", 36)
+    mh = w.take("msg_header", 8)
+    muuid = w.take("msg_uuid", 8)
+    chal = w.take("challenge", 32)
+    beacon = w.take("beacon", 2)
+    sb_at = w.o
+    sb = w.take("sigblock_header", 16)
+    if w.err:
+        return {"err": w.err, "fields": w.fields}
+    version, length, tag = _hdr_vlt(ch)
+    flags = le32(ch, 4)
+    sb_off = struct.unpack_from("<H", ch, 12)[0]
+    if (version, tag) != (2, 0x89) or sb_off != sb_at or length > len(data) or mh[6] != 0xC8:
+        return {"err": f"container header version {version} tag {tag:#x} length {length} signature block at {sb_off} (walked {sb_at}) command {mh[6]:#x}", "fields": w.fields}
+    bv, bl, bt = _hdr_vlt(sb)
+    cert_off, srk_off, sig_off, blob_off = struct.unpack_from("<4H", sb, 4)
+    if (bv, bt) != (1, 0x90) or srk_off != 16 or blob_off != 0 or sb_at + bl != length:
+        return {"err": f"signature block header {sb.hex()}", "fields": w.fields}
+    ah = w.take("srk_array_header", 8)
+    th_at = w.o
+    th = w.take("srk_table_header", 4)
+    if w.err:
+        return {"err": w.err, "fields": w.fields}
+    av, al, at = _hdr_vlt(ah)
+    ttag, tlen, tver = th[0], struct.unpack_from("<H", th, 1)[0], th[3]
+    if (av, at, ah[4]) != (0, 0x5A, 1) or (ttag, tver, tlen) != (0xD7, 0x43, 4 + 4 * 76):
+        return {"err": f"SRK table array / table headers {ah.hex()} {th.hex()}", "fields": w.fields}
+    recs = []
+    for i in range(4):
+        rb = w.take("srk_record", 76)
+        if w.err:
+            return {"err": w.err, "fields": w.fields}
+        rtag, rlen, salg, halg, ksz, _r, rflags, l1, l2 = struct.unpack_from("<BHBBBBBHH", rb, 0)
+        kind, size = SRK_KEYSIZE.get(ksz, (None, 0))
+        if rtag != 0xE1 or rlen != 76 or kind != "ecc" or salg != 0x27 or halg not in SRK_HASH or (l1, l2) != (size, size):
+            return {"err": f"SRK record {i}: {rb[:12].hex()}", "fields": w.fields}
+        recs.append({"size": size, "hash": SRK_HASH[halg], "flags": rflags, "digest": rb[12:]})
+    table_raw = data[th_at:w.o]
+    sd_at = w.o
+    sdh = w.take("srk_data_header", 8)
+    if w.err:
+        return {"err": w.err, "fields": w.fields}
+    used = sdh[4]
+    sv, sl, st = _hdr_vlt(sdh)
+    if used > 3 or st != 0x5D or sv != 0 or sl != 8 + 2 * recs[used]["size"] or ((flags >> 4) & 0xF) != used or len({r_["size"] for r_ in recs}) != 1:
+        return {"err": f"SRK data header {sdh.hex()} (container flags {flags:#x})", "fields": w.fields}
+    size = recs[used]["size"]
+    rot = w.take("rotpub", 2 * size)
+    if sb_at + srk_off + al != w.o or sb_at + sig_off != w.o:
+        return {"err": f"SRK array length {al} / signature offset {sig_off}: walked to {w.o - sb_at}", "fields": w.fields}
+    sig_at = w.o
+    sh = w.take("sig_header", 8)
+    sig = w.take("signature", 2 * size)
+    if w.err:
+        return {"err": w.err, "fields": w.fields}
+    gv, gl, gt = _hdr_vlt(sh)
+    if (gv, gl, gt) != (0, 8 + 2 * size, 0xD8) or any(sh[4:]) or sb_at + cert_off != w.o:
+        return {"err": f"signature container header {sh.hex()} / certificate offset {cert_off}: walked to {w.o - sb_at}", "fields": w.fields}
+    cert_at = w.o
+    cert = w.take("dc", length - w.o)
+    pad = w.take("pad", len(data) - w.o)
+    if w.err or any(pad) or len(pad) >= 8:
+        return {"err": w.err or f"{len(pad)} bytes after the container", "fields": w.fields}
+    dg = hashlib.new(recs[used]["hash"], data[sd_at:sig_at]).digest()
+    return {"fields": w.fields, "end": w.o, "length": length, "sig_at": sig_at, "sig": sig, "signed": data[:sig_at], "challenge": chal,
+            "beacon": struct.unpack("<H", beacon)[0], "msg_uuid": muuid, "cert": cert, "cert_at": cert_at, "used": used, "size": size,
+            "rot_pub": pub_from_blob("ecc", rot, size), "table_raw": table_raw, "srk_data_ok": recs[used]["digest"] == dg + bytes(64 - len(dg)),
+            "srk_set": flags & 0xF, "recs": recs}
+
+
+class Device2:
+    """Acceptance automaton of an enclave that takes signed messages of container version 2.  The container signature (debug key)
+    covers everything from the container header to the SRK table array; the certificate (= the credential) follows the signature and
+    is authenticated by its own signature under the selected SRK.  Order of the checks chosen so that the binding check comes last."""
+
+    def __init__(self, uuid, socc, fuses):
+        self.uuid, self.socc, self.fuses = uuid, socc, fuses
+
+    def verdict(self, dar_bytes, challenge):
+        m = walk_msg2(dar_bytes)
+        if m.get("err"):
+            return "Malformed", m["err"]
+        c = walk_cert2(m["cert"])
+        if c.get("err"):
+            return "Malformed", c["err"]
+        if hashlib.sha512(m["table_raw"]).digest() != self.fuses or not m["srk_data_ok"] or m["srk_set"] != 2:
+            return "CheckRotHash", ""
+        if m["rot_pub"] is None or not verify(m["rot_pub"], c["sig"], c["signed"], "ecdsa-" + m["recs"][m["used"]]["hash"]):
+            return "CheckDcSignature", ""
+        if not c["srk_hash_ok"] or c["dck_pub"] is None or not verify(c["dck_pub"], m["sig"], m["signed"], "ecdsa-" + c["hash"]) or m["challenge"] != challenge:
+            return "CheckResponseSignature", ""
+        if not c["perm_ok"] or c["socc"] != self.socc or (any(c["uuid"]) and c["uuid"] != self.uuid):
+            return "CheckDcBinding", ""
+        return "Accept", ""
+
+
 # ------------------------------------------------------------------ the intruder's own tools (he does not use SPSDK)
 _priv_cache = {}
 
